@@ -44,7 +44,7 @@ type c09Case struct {
 	Spec *gen.Spec `json:"spec,omitempty"`
 	Text string    `json:"text,omitempty"`
 	Lab  string    `json:"label"`
-	Seq  []string  `json:"seq,omitempty"` // files kind: writes "<encoding>:<model index>"
+	Seq  []string  `json:"seq,omitempty"`  // files kind: writes "<encoding>:<model index>"
 	Same bool      `json:"same,omitempty"` // files kind: every encoding writes to its own file (one model object, several encodings)
 }
 
